@@ -267,9 +267,18 @@ fn replay_earlystop(case: &Value, rep: &mut Report) {
         ("ulps", Box::new(|r| f32::from_bits(0.3f32.to_bits() + r as u32))),
         ("top_is_infinite", Box::new(move |r| if r == top { f32::INFINITY } else { r })),
         ("bottom_is_minus_infinite", Box::new(move |r| if r == bottom { f32::NEG_INFINITY } else { r })),
+        // the bottom rank is zero -- written alternately as -0.0 and +0.0 (equal values: a plateau, never a rise)
+        ("bottom_is_a_signed_zero", Box::new(move |r| if r == bottom { 0.0 } else { r })),
     ];
     for (name, f) in embeddings.iter() {
-        let script: Vec<f32> = ranks.iter().map(|r| f(*r)).collect();
+        let mut script: Vec<f32> = ranks.iter().map(|r| f(*r)).collect();
+        if *name == "bottom_is_a_signed_zero" {
+            for (i, v) in script.iter_mut().enumerate() {
+                if *v == 0.0 && i % 2 == 0 {
+                    *v = -0.0;
+                }
+            }
+        }
         replay_earlystop_with(case, rep, name, script);
         if !bool_of(&case["p"], "hasval") {
             break;
@@ -302,6 +311,26 @@ fn replay_earlystop_with(case: &Value, rep: &mut Report, embedding: &str, script
         net.learn(&xr, &yr, val, 1, e as i32, print)
     });
     verif::set_val_loss_script(None);
+    // nothing of a `learn` call survives into the next one: the same call again on the same network behaves the same
+    verif::set_val_loss_script(if hasval { Some(script.clone()) } else { None });
+    rep.checks += 1;
+    let again = guarded(|| {
+        let xr = refs(&x);
+        let yr = refs(&y);
+        let val = if hasval { Some((&xr, &yr, tol as i32)) } else { None };
+        net.learn(&xr, &yr, val, 1, e as i32, None)
+    });
+    verif::set_val_loss_script(None);
+    match again {
+        Err(msg) => rep.mismatch("C13", "second_learn_call_panicked", &id, json!({"panic": msg}), case),
+        Ok((train, val, acc)) => {
+            let want_val = if hasval { ran } else { 0 };
+            if train.len() != ran || val.len() != want_val || acc.len() != want_val {
+                rep.mismatch("C13", "second_learn_call_on_the_same_network_runs_a_different_number_of_epochs", &id,
+                             json!({"expected_epochs": ran, "train": train.len(), "val": val.len(), "acc": acc.len(), "tol": tol, "budget": e, "embedding": embedding}), case);
+            }
+        }
+    }
     match out {
         Err(msg) => rep.mismatch("C13", "learn_panicked", &id, json!({"panic": msg}), case),
         Ok((train, val, acc)) => {
